@@ -20,7 +20,10 @@ EXPLANATION = (
   "doBulkAddOrReplace the temp->final map is recorded (requested ids against filled ids) before "
   "values are converted and the action is built from the filled ids; in doBulkUpdateRecord and "
   "doBulkRemoveRecord the row ids are translated before the action is built and the action is "
-  "built from the translated ids; recording and translating use the same per-table map. Not "
+  "built from the translated ids, and nothing computed from the ids as requested is used once "
+  "they have been translated (the clean-up of references to removed rows works on the rows the "
+  "temporary ids stand for); recording and translating use the same per-table map. Values are "
+  "followed through reaching definitions, so locals may be renamed, copied or built by loops. Not "
   "decided: the ids allocated (C27) and the values the translated references end up with.")
 
 
@@ -329,6 +332,8 @@ def r2_call_sites(run, w):
                 "every prepare_new_values call; it is the only caller outside the column classes",
                 floor=2)
   n = 0
+  CAV = "engine.Engine.convert_action_values"
+  parts = {CAV} | H.private_helpers(w, {CAV})
   for fi in w.repo.all_functions():
     if not any(isinstance(x, ast.Attribute) and x.attr == "prepare_new_values"
                for x in ast.walk(fi.node)):
@@ -340,7 +345,7 @@ def r2_call_sites(run, w):
       if in_col and isinstance(c.func.value, ast.Call) and dotted(c.func.value.func) == "super":
         continue
       n += 1
-      if fi.qualname != "engine.Engine.convert_action_values":
+      if fi.qualname not in parts:
         run.ob(R2, fi.qualname, short(c), "prepare_new_values is called only by "
                "Engine.convert_action_values (which supplies the action summary)", False, fi=fi,
                node=c, nontrivial=False)
@@ -359,9 +364,9 @@ def r2_call_sites(run, w):
   if n == 0:
     raise AnalysisError("no prepare_new_values call site found")
   # both halves of convert_action_values: mentioned columns, and all other data columns on adds
-  fn = w.fn("engine.Engine.convert_action_values")
-  sites = [c for c in calls_in(fn.node.body) if isinstance(c.func, ast.Attribute) and
-           c.func.attr == "prepare_new_values"]
+  fn = w.fn(CAV)
+  sites = [c for q in sorted(parts) for c in calls_in(w.fn(q).node.body)
+           if isinstance(c.func, ast.Attribute) and c.func.attr == "prepare_new_values"]
   run.ob(R2, fn.qualname, "explicit columns and defaulted columns", "values given explicitly and "
          "defaults of the remaining data columns both go through prepare_new_values",
          len(sites) >= 2, fi=fn.fi, nontrivial=False)
@@ -463,17 +468,34 @@ def r3_row_ids(run, w):
     ENTRY = H.ReachDefs.ENTRY
     ps = fn.fi.params()
     p_table, p_rows = ps[1], ps[2]
-    tr = [(n, c) for (n, c, nm) in fn.calls() if endswith(nm, "summary.translate_new_row_ids")]
+    tfi = w.repo.func("action_summary.ActionSummary.translate_new_row_ids")
+    tr = []            # (node, call made in this function, table argument, rows argument)
+    for (n, c, nm) in fn.calls():
+      if endswith(nm, "summary.translate_new_row_ids"):
+        try:
+          tr.append((n, c, H.arg_of(c, tfi, "table_id"), H.arg_of(c, tfi, "row_ids")))
+        except AnalysisError:
+          tr.append((n, c, None, None))
+        continue
+      # a private helper that just returns the translation of its own parameters
+      hfi = H.self_method(w, fn, c)
+      if hfi is None or hfi.qualname == fn.qualname:
+        continue
+      h = w.fn_of(hfi)
+      hdu = DefUse(h)
+      hrets = H.return_values(h, hdu, H.ReachDefs(h, hdu))
+      if len(hrets) == 1 and isinstance(hrets[0][1], ast.Call) and \
+          endswith(h.name(hrets[0][1]), "summary.translate_new_row_ids"):
+        try:
+          inner = [H.deref(h, H.arg_of(hrets[0][1], tfi, p)) for p in ("table_id", "row_ids")]
+          outer = [H.arg_of(c, hfi, a.id) if isinstance(a, ast.Name) and a.id in hfi.params()
+                   and not hdu.rebinders(a.id) else None for a in inner]
+        except AnalysisError:
+          outer = [None, None]
+        tr.append((n, c, outer[0], outer[1]))
     if len(tr) != 1:
       raise AnalysisError("%s: translate_new_row_ids call not found" % q)
-    tn, tc = tr[0]
-    try:
-      a_table = H.arg_of(tc, w.repo.func("action_summary.ActionSummary.translate_new_row_ids"),
-                         "table_id")
-      a_rows = H.arg_of(tc, w.repo.func("action_summary.ActionSummary.translate_new_row_ids"),
-                        "row_ids")
-    except AnalysisError:
-      a_table = a_rows = None
+    tn, tc, a_table, a_rows = tr[0]
     if a_table is None or a_rows is None:
       raise AnalysisError("%s: cannot bind the arguments of %s" % (q, short(tc)))
     # the translation's result is bound to a local (possibly through list(...))
